@@ -40,11 +40,14 @@ TRUSTED = [
 ASSUMPTIONS = ["exact arithmetic in the theorems; implementation compared to 1e-7",
                "the 'edge-tail' boundary families place one coefficient at 3e-7 / 3.3e-8 (excluded band (5e-8, 2e-7) instead of [1e-9, 1e-5]): "
                "a dropped 3.3e-8 coefficient moves the composition by less than the 1e-7 tolerance",
+               "float32 / complex64 inputs: numpy's SVD runs in single precision; compared with the up-cast input to 1e-5 and only on states "
+               "whose Schmidt coefficients are all >= 3e-4 or on exact basis states",
                "C09_compose: the singular values dropped by the rank rule are exactly 0 (in the implementation: <= 1e-7; generated inputs keep them < 1e-9)"]
 RULE = ("tie: (n, partition list) whose full index permutation (both directions) was diffed, and (low_rank, eff) / singular-value "
         "lists whose rank was diffed; oracle: (vector family, n, partition, rank) on which schmidt_decomposition + "
         "schmidt_composition of the real code were evaluated against an independent bit-arithmetic reshape and numpy SVD; "
-        "non-trivial = n>=2 and non-empty proper partition")
+        "non-trivial = n>=2 and non-empty proper partition; diversity cases: the same observables with the state / partition / "
+        "rank / factors handed over in each container and element type, call form and scale / phase structure (keys diversity:*)")
 
 BAND = (1e-9, 1e-5)   # singular values of generated inputs stay outside this band around the 1e-7 rank threshold
 
@@ -534,6 +537,1030 @@ def run_oracle_boundaries(ctx):
                      "randomized_svd's module-level generator is seeded from VERIF_SEED")
 
 
+# ---------------------------------------------------------------------------------------------
+# input-diversity pass: the FORM of otherwise ordinary inputs (quick tier, n = 2..6, a few cheap n = 14)
+#
+# entry points: D = schmidt_decomposition, C = schmidt_composition, S = _separation_matrix, U = _undo_separation_matrix,
+#               R = low_rank_approximation / _effective_rank (rank handling)
+#
+#  form                                                   | D + C round trip                 | C alone          | S / U            | R
+#  -------------------------------------------------------+----------------------------------+------------------+------------------+-----------
+#  1 state: int list / tuple / list of numpy scalars /    | div_types (form_case, `vtype`)   | div_comp (`utype`| div_reshape      | -
+#    mixed list / i64 / f32 / f64 / c64 / c128 / zero     |                                  | `stype`: real    | (`vtype`) + tie  |
+#    imaginary part / negative zeros                      |                                  | u, v; int s)     | (`atype`)        |
+#  1 partition: list / tuple / int64 array / range /      | div_types, div_calls (`ptype`,   | div_comp         | div_reshape + tie| -
+#    numpy ints / set / frozenset / non-ascending /       | `pcomp`: same object, sorted,    | (`ptype`)        | tie_sep_form     |
+#    complement / 1 qubit / n-1 qubits                    | reversed, set, tuple, array)     |                  |                  |
+#  1 rank: omitted / int / numpy int / > Schmidt rank /   | div_calls (`rtype`), div_sizes   | -                | -                | tie_rank_form
+#    not a power of two                                   |                                  |                  |                  | (numpy lr, s as list/tuple/f32/int)
+#  2 light-tail spectra 1e-3 / 3e-5 / 1e-6, all-equal,    | div_scale                        | div_comp (s with | -                | tie_rank_form
+#    exactly repeated, product, light-tail amplitudes,    |                                  | light tail)      |                  |
+#    sparse, one amplitude, one half / one sub-tree       |                                  |                  |                  |
+#  3 all-negative / imaginary / global phase -1, i, e^it /| div_phase                        | div_comp (phase  | div_reshape      | -
+#    per-entry +-1, +-i                                   |                                  | on u)            | (exact identity) |
+#  4 positional / keyword / reordered keywords / svd      | div_calls (`form`, `cform`,      | div_comp (`cform`| div_reshape      | -
+#    positional; outputs fed to C as is / s list / tuple /| `ctype`, `partition2` = the same | pos / kw)        | (`form`, `mtype`)|
+#    copies / Fortran / read-only; same array twice;      | object decomposed twice)         |                  |                  |
+#    read-only, strided, matrix-column inputs untouched   |                                  |                  |                  |
+#  5 n = 2 all forms, n = 3..6, |P| = 1, n//2, n-1,       | div_sizes                        | div_comp n = 2..4| div_reshape      | -
+#    rank 1..5 at n = 4..6, n = 14 product / low rank     |                                  |                  | n = 2..6         |
+#
+# Tie: the Lean driver models the index tables of S / U and the rank rule.  Partition forms and array forms of the index
+# vector are tied through the existing "sep" op (canonical integer list; a set is sent sorted - the model sorts, C09_axes_sorted),
+# rank forms through the "ranks" op.  dtype, call form, read-only / strided / Fortran layout are not in the model: oracle only.
+#
+# Single precision (float32 / complex64): numpy's SVD then works in single precision, so the observable is compared with the
+# UP-CAST input to TOL32 = 1e-5 (measured on the unchanged code: <= 3e-7); only states whose Schmidt coefficients are all
+# >= 3e-4 (the rank would otherwise depend on single-precision noise around the 1e-7 cut) or exact basis states (exact in
+# single precision) are generated.  Any exception on these valid inputs is a failure.
+# ---------------------------------------------------------------------------------------------
+
+import copy
+
+TOL32 = 1e-5
+SINGLE = ("f32", "c64", "f32-fortran")
+
+VTYPES_COMPLEX = ["c128", "c64", "list", "tuple", "list-npscalar", "readonly", "strided", "column-C", "column-F", "negzero"]
+VTYPES_REAL = ["f64", "f32", "list-float", "tuple-float", "list-npfloat", "c128-zero-imag", "list-mixed", "f64-readonly",
+               "f64-strided", "f64-negzero"]
+VTYPES_INT = ["i64", "list-int", "tuple-int", "list-npint", "i64-readonly", "i32"]
+PTYPES = ["list", "tuple", "ndarray", "list-npint", "set", "frozenset", "range"]
+DFORMS = ["pos2", "pos3", "pos4", "kw-rank", "kw-rank-svd", "kw-all", "kw-all-reordered", "kw-svd-only", "mixed"]
+CFORMS = ["pos", "kw", "kw-reordered", "mixed"]
+CTYPES = ["asis", "s-list", "s-tuple", "copies", "fortran", "readonly"]
+PCOMPS = ["same", "sorted", "reversed", "set", "tuple", "ndarray"]
+RTYPES = ["int", "np.int64", "np.int32"]
+
+
+def _all_real(v):
+    return bool(np.all(np.imag(v) == 0))
+
+
+def _all_int(v):
+    return _all_real(v) and bool(np.all(np.real(v) == np.round(np.real(v))))
+
+
+def vtypes_for(v):
+    out = list(VTYPES_COMPLEX)
+    if _all_real(v):
+        out += VTYPES_REAL
+    if _all_int(v):
+        out += VTYPES_INT
+    return out
+
+
+def build_state(vref, vtype):
+    """The object handed to the library for the canonical complex128 vector `vref` in the element/container form `vtype`."""
+    v = np.array(vref, dtype=complex)
+    d = len(v)
+    re = np.real(v).copy()
+    if vtype == "c128":
+        return v
+    if vtype == "c64":
+        return v.astype(np.complex64)
+    if vtype == "list":
+        return [complex(x) for x in v]
+    if vtype == "tuple":
+        return tuple(complex(x) for x in v)
+    if vtype == "list-npscalar":
+        return [np.complex128(x) for x in v]
+    if vtype == "readonly":
+        v.flags.writeable = False
+        return v
+    if vtype == "strided":
+        big = np.full(2 * d, 7.0 - 3.0j)
+        big[::2] = v
+        return big[::2]
+    if vtype in ("column-C", "column-F"):
+        m = np.full((d, 3), 7.0 - 3.0j, order=vtype[-1])
+        m[:, 1] = v
+        return m[:, 1]
+    if vtype == "negzero":
+        out = np.empty(d, dtype=complex)
+        out.real = np.where(v.real == 0, -0.0, v.real)
+        out.imag = np.where(v.imag == 0, -0.0, v.imag)
+        return out
+    # real-valued forms
+    if vtype == "f64":
+        return re
+    if vtype == "f32":
+        return re.astype(np.float32)
+    if vtype == "list-float":
+        return [float(x) for x in re]
+    if vtype == "tuple-float":
+        return tuple(float(x) for x in re)
+    if vtype == "list-npfloat":
+        return [np.float64(x) for x in re]
+    if vtype == "c128-zero-imag":
+        return re.astype(complex)
+    if vtype == "list-mixed":
+        return [(int(x) if x == round(x) else float(x)) if i % 3 else complex(x, 0.0) for i, x in enumerate(re)]
+    if vtype == "f64-readonly":
+        re.flags.writeable = False
+        return re
+    if vtype == "f64-strided":
+        big = np.full(2 * d, 7.0)
+        big[::2] = re
+        return big[::2]
+    if vtype == "f64-negzero":
+        return np.where(re == 0, -0.0, re)
+    # integer-valued forms
+    ire = np.round(re).astype(np.int64)
+    if vtype == "i64":
+        return ire
+    if vtype == "i32":
+        return ire.astype(np.int32)
+    if vtype == "list-int":
+        return [int(x) for x in ire]
+    if vtype == "tuple-int":
+        return tuple(int(x) for x in ire)
+    if vtype == "list-npint":
+        return [np.int64(x) for x in ire]
+    if vtype == "i64-readonly":
+        ire.flags.writeable = False
+        return ire
+    raise ValueError(vtype)
+
+
+def _as_range(part):
+    part = [int(a) for a in part]
+    if len(part) == 1:
+        return range(part[0], part[0] + 1)
+    st = part[1] - part[0]
+    if st == 0 or any(b - a != st for a, b in zip(part, part[1:])):
+        return None
+    return range(part[0], part[-1] + (1 if st > 0 else -1), st)
+
+
+def build_partition(part, ptype):
+    part = [int(a) for a in part]
+    if ptype == "list":
+        return list(part)
+    if ptype == "tuple":
+        return tuple(part)
+    if ptype == "ndarray":
+        return np.array(part, dtype=np.int64)
+    if ptype == "list-npint":
+        return [np.int64(a) if i % 2 == 0 else np.int32(a) for i, a in enumerate(part)]
+    if ptype == "set":
+        return set(part)
+    if ptype == "frozenset":
+        return frozenset(part)
+    if ptype == "range":
+        return _as_range(part)
+    if ptype == "sorted":
+        return sorted(part)
+    if ptype == "reversed":
+        return list(reversed(part))
+    raise ValueError(ptype)
+
+
+def build_rank(r, rtype):
+    return {"int": int, "np.int64": np.int64, "np.int32": np.int32}[rtype](r)
+
+
+def _snapshot(obj):
+    if isinstance(obj, np.ndarray):
+        base = obj.base if isinstance(obj.base, np.ndarray) else None
+        return ("nd", obj.copy(), obj.dtype, None if base is None else base.copy())
+    return ("py", copy.deepcopy(obj), type(obj))
+
+
+def _unchanged(obj, snap):
+    if snap[0] == "nd":
+        if not isinstance(obj, np.ndarray) or obj.dtype != snap[2] or obj.shape != snap[1].shape:
+            return False
+        if not np.array_equal(obj, snap[1]):
+            return False
+        if snap[3] is not None and not np.array_equal(obj.base, snap[3]):
+            return False
+        return True
+    return type(obj) is snap[2] and bool(obj == snap[1])
+
+
+def _call_decomposition(form, vobj, pobj, robj, svd):
+    from qclib.entanglement import schmidt_decomposition as D
+    if form == "pos2":
+        return D(vobj, pobj)
+    if form == "pos3":
+        return D(vobj, pobj, robj)
+    if form == "pos4":
+        return D(vobj, pobj, robj, svd)
+    if form == "kw-rank":                       # baa.py
+        return D(vobj, pobj, rank=robj)
+    if form == "kw-rank-svd":                   # lowrank.py
+        return D(vobj, pobj, rank=robj, svd=svd)
+    if form == "kw-all":
+        return D(state_vector=vobj, partition=pobj, rank=robj, svd=svd)
+    if form == "kw-all-reordered":
+        return D(svd=svd, rank=robj, partition=pobj, state_vector=vobj)
+    if form == "kw-svd-only":
+        return D(vobj, pobj, svd=svd)
+    if form == "mixed":
+        return D(vobj, partition=pobj, rank=robj)
+    raise ValueError(form)
+
+
+def _call_composition(cform, u, vh, s, pobj):
+    from qclib.entanglement import schmidt_composition as C
+    if cform == "pos":                          # baa.py, test_entanglement.py
+        return C(u, vh, s, pobj)
+    if cform == "kw":
+        return C(svd_u=u, svd_v=vh, singular_values=s, partition=pobj)
+    if cform == "kw-reordered":
+        return C(partition=pobj, singular_values=s, svd_v=vh, svd_u=u)
+    if cform == "mixed":
+        return C(u, vh, singular_values=s, partition=pobj)
+    raise ValueError(cform)
+
+
+def _convert_factors(ctype, u, s, vh):
+    if ctype == "asis":
+        return u, s, vh
+    if ctype == "s-list":
+        return u, [x for x in s], vh
+    if ctype == "s-tuple":
+        return u, tuple(float(x) for x in s), vh
+    if ctype == "copies":
+        return np.array(u), np.array(s), np.array(vh)
+    if ctype == "fortran":
+        return np.asfortranarray(u), np.array(s), np.asfortranarray(vh)
+    if ctype == "readonly":
+        u, s, vh = np.array(u), np.array(s), np.array(vh)
+        for a in (u, s, vh):
+            a.flags.writeable = False
+        return u, s, vh
+    raise ValueError(ctype)
+
+
+def _pcomp_obj(pcomp, part, pobj):
+    if pcomp == "same":
+        return pobj
+    return build_partition(part, pcomp)
+
+
+def _schmidt_problems(n, part, vup, r, rank, u, s, vh, back, tol, eff, sref, mref):
+    """The statements of C09 for one decomposition / composition of the up-cast input `vup` (shared by the diversity cases)."""
+    k = len(part)
+    rows, cols = 2 ** (n - k), 2 ** k
+    want = clp2(r if 0 < r < eff else eff)
+    problems = []
+    try:
+        rank_i = int(rank)
+    except Exception:
+        return [f"rank returned as {type(rank).__name__}"], want
+    if rank_i != want:
+        problems.append(f"rank {rank_i} != least power of two >= min(r, eff) = {want} (eff={eff})")
+    if rank_i & (rank_i - 1) or rank_i < 1:
+        problems.append(f"rank {rank_i} not a power of two")
+    u, s, vh = np.asarray(u), np.asarray(s), np.asarray(vh)
+    if len(s) != rank_i or u.shape != (rows, rank_i) or vh.shape != (rank_i, cols):
+        problems.append(f"shapes U{u.shape} s{s.shape} V{vh.shape} for rank {rank_i}, matrix {rows}x{cols}")
+        return problems, want
+    rank = rank_i
+    gu = np.abs(u.conj().T @ u - np.eye(rank)).max()
+    gv = np.abs(vh @ vh.conj().T - np.eye(rank)).max()
+    if gu > tol:
+        problems.append(f"left vectors not orthonormal ({gu:.2e})")
+    if gv > tol:
+        problems.append(f"right vectors not orthonormal ({gv:.2e})")
+    if np.any(np.imag(s) != 0) or np.any(np.real(s) < 0) or np.any(np.diff(np.real(s)) > tol * 1e-5):
+        problems.append("coefficients not non-negative non-increasing")
+    if np.abs(np.real(s) - sref[:rank]).max() > tol:
+        problems.append("coefficients differ from the singular values of the independent reshape")
+    back = np.asarray(back)
+    if back.shape != (2 ** n,):
+        problems.append(f"composition has shape {back.shape}")
+    elif rank >= eff:
+        err = np.abs(back - vup).max()
+        if err > tol:
+            problems.append(f"composition differs from the input by {err:.2e} (no truncation)")
+    else:
+        nn = float(np.vdot(back, back).real)
+        if abs(nn - float((sref[:rank] ** 2).sum())) > tol:
+            problems.append(f"truncated composition has squared norm {nn}")
+        if sref[rank - 1] - sref[rank] > (1e-3 if tol <= 1e-7 else 5e-2):
+            uu, ss, vv = np.linalg.svd(mref, full_matrices=False)
+            t = ref_undo(n, (uu[:, :rank] * ss[:rank]) @ vv[:rank], part)
+            err = np.abs(back - t).max()
+            if err > tol:
+                problems.append(f"truncated composition differs from the independent truncation by {err:.2e}")
+    return problems, want
+
+
+def mkspec(name, n, part, v, r=0, vtype="c128", ptype="list", rtype="int", form="kw-rank", svd=None, cform="pos",
+           ctype="asis", pcomp="same", partition2=None, band=BAND, exact32=False):
+    """JSON-able description of one diversity case of the decomposition / composition round trip."""
+    if form in ("pos2", "kw-svd-only"):
+        r = 0                                   # rank not passed
+    if form in ("pos4", "kw-rank-svd", "kw-all", "kw-all-reordered", "kw-svd-only") and svd is None:
+        svd = "auto"
+    if form in ("pos2", "pos3", "kw-rank", "mixed"):
+        svd = None                              # svd not passed
+    if ptype == "range" and _as_range(part) is None:
+        ptype = "tuple"
+    v = np.asarray(v, dtype=complex)
+    return {"call": "diversity", "family": name, "n": int(n), "partition": [int(a) for a in part], "rank": int(r),
+            "vtype": vtype, "ptype": ptype, "rtype": rtype, "form": form, "svd": svd, "cform": cform, "ctype": ctype,
+            "pcomp": pcomp, "partition2": None if partition2 is None else [int(a) for a in partition2],
+            "band": list(band), "exact32": bool(exact32),
+            "vector_re": [float(x) for x in np.real(v)], "vector_im": [float(x) for x in np.imag(v)]}
+
+
+def form_case(ctx, spec):
+    """C09 on the real code for one (vector, partition, rank) handed over in the forms named by `spec`."""
+    n, r = spec["n"], spec["rank"]
+    vref = np.array(spec["vector_re"]) + 1j * np.array(spec["vector_im"])
+    vtype, ptype, rtype = spec["vtype"], spec["ptype"], spec["rtype"]
+    form, svd, cform, ctype, pcomp = spec["form"], spec["svd"], spec["cform"], spec["ctype"], spec["pcomp"]
+    band = tuple(spec["band"])
+    single = vtype in SINGLE
+    tol = TOL32 if single else 1e-7
+    parts = [spec["partition"]] + ([spec["partition2"]] if spec.get("partition2") else [])
+    key = (f"diversity:schmidt:{spec['family']}:n={n}:P={','.join(map(str, parts[0]))}"
+           + (f"+P2={','.join(map(str, parts[1]))}" if len(parts) > 1 else "")
+           + f":r={r}:v={vtype}:p={ptype}:rk={rtype}:call={form}:svd={svd}:comp={cform}/{ctype}/{pcomp}")
+    vobj = build_state(vref, vtype)
+    vup = np.asarray(vobj, dtype=complex).reshape(-1)
+    vsnap = _snapshot(vobj)
+    robj = build_rank(r, rtype)
+    # screen the spectra of all requested bipartitions first (threshold band, single-precision rank stability)
+    refs = []
+    for part in parts:
+        mref = ref_sep(n, vup, part)
+        sref = np.linalg.svd(mref, compute_uv=False)
+        if any(band[0] <= x <= band[1] for x in sref):
+            ctx.count("diversity:skipped:threshold-band")
+            return
+        if single and not spec.get("exact32") and sref.min() < 3e-4:
+            ctx.count("diversity:skipped:single-precision-rank-deficient")
+            return
+        refs.append((mref, sref))
+    problems = []
+    info = {}
+    for idx, part in enumerate(parts):
+        mref, sref = refs[idx]
+        eff = int((sref > 1e-7).sum())
+        pobj = build_partition(part, ptype)
+        psnap = _snapshot(pobj)
+        tag = "" if idx == 0 else "second partition: "
+        try:
+            res = _call_decomposition(form, vobj, pobj, robj, svd)
+            rank, u, s, vh = res
+            cu, cs, cvh = _convert_factors(ctype, u, s, vh)
+            pc = _pcomp_obj(pcomp, part, pobj)
+            snaps = [_snapshot(x) for x in (cu, cs, cvh, pc)]
+            back = _call_composition(cform, cu, cvh, cs, pc)
+        except Exception as ex:   # a valid input must not raise
+            ctx.fail(key, f"{tag}raised {type(ex).__name__}: {ex}", spec)
+            return
+        if not _unchanged(vobj, vsnap):
+            problems.append(tag + "input vector (or the array it is a view of) modified")
+        if not _unchanged(pobj, psnap):
+            problems.append(tag + "partition object modified")
+        if not all(_unchanged(x, sn) for x, sn in zip((cu, cs, cvh, pc), snaps)):
+            problems.append(tag + "schmidt_composition modified one of its arguments")
+        pr, want = _schmidt_problems(n, part, vup, r, rank, u, s, vh, back, tol, eff, sref, mref)
+        problems += [tag + x for x in pr]
+        info = {"rank": want, "eff": eff}
+        ctx.count("diversity:truncated" if want < eff else "diversity:untruncated")
+    ctx.count(f"diversity:vtype:{vtype}")
+    ctx.count(f"diversity:ptype:{ptype}")
+    ctx.count(f"diversity:rtype:{rtype}")
+    ctx.count(f"diversity:call:{form}")
+    ctx.count(f"diversity:comp:{cform}/{ctype}/{pcomp}")
+    ctx.count(f"diversity:fam:{spec['family']}")
+    if problems:
+        ctx.fail(key, "; ".join(problems), spec)
+    else:
+        ctx.ok(key, nontrivial=True, sample={"family": spec["family"], "n": n, "partition": parts[0], "r": r,
+                                              "vtype": vtype, "ptype": ptype, "call": form, **info})
+
+
+# ---- composition alone ----------------------------------------------------------------------
+
+UTYPES = ["c128", "c64", "fortran", "readonly", "sliced-view", "full-unsliced", "f64", "f32", "f32-fortran", "i64"]
+STYPES = ["f64", "list", "tuple", "list-npfloat", "f32", "i64", "list-int", "tuple-int"]
+
+
+def _build_factor(m, utype, r, axis):
+    """Left (axis = 1: columns kept) or right (axis = 0: rows kept) factor in the form `utype`; `m` is the full square
+    unitary, the first r columns / rows are the Schmidt vectors."""
+    m = np.array(m, dtype=complex)
+    sl = m[:, :r] if axis == 1 else m[:r, :]
+    if utype == "full-unsliced":
+        return m
+    if utype == "sliced-view":
+        return sl                                # a view of the full matrix, as low_rank_approximation returns
+    if utype == "c128":
+        return np.array(sl)
+    if utype == "c64":
+        return sl.astype(np.complex64)
+    if utype == "fortran":
+        return np.asfortranarray(sl)
+    if utype == "readonly":
+        a = np.array(sl)
+        a.flags.writeable = False
+        return a
+    if utype == "f64":
+        return np.array(np.real(sl))
+    if utype == "f32":
+        return np.real(sl).astype(np.float32)
+    if utype == "f32-fortran":
+        return np.asfortranarray(np.real(sl).astype(np.float32))
+    if utype == "i64":
+        return np.round(np.real(sl)).astype(np.int64)
+    raise ValueError(utype)
+
+
+def _build_s(s, stype):
+    s = np.array(s, dtype=float)
+    if stype == "f64":
+        return s
+    if stype == "list":
+        return [float(x) for x in s]
+    if stype == "tuple":
+        return tuple(float(x) for x in s)
+    if stype == "list-npfloat":
+        return [np.float64(x) for x in s]
+    if stype == "f32":
+        return s.astype(np.float32)
+    if stype == "i64":
+        return np.round(s).astype(np.int64)
+    if stype == "list-int":
+        return [int(round(x)) for x in s]
+    if stype == "tuple-int":
+        return tuple(int(round(x)) for x in s)
+    raise ValueError(stype)
+
+
+def comp_case(ctx, spec):
+    """schmidt_composition alone: (U[:, :r] * s) @ V[:r, :] placed back on the qubits, against plain bit arithmetic."""
+    n, part, r = spec["n"], spec["partition"], len(spec["s"])
+    qu = np.array(spec["u_re"]) + 1j * np.array(spec["u_im"])
+    qv = np.array(spec["v_re"]) + 1j * np.array(spec["v_im"])
+    utype, stype, ptype, cform = spec["utype"], spec["stype"], spec["ptype"], spec["cform"]
+    key = (f"diversity:composition:{spec['family']}:n={n}:P={','.join(map(str, part))}:rank={r}:u={utype}:s={stype}:p={ptype}"
+           f":call={cform}")
+    u = _build_factor(qu, utype, r, 1)
+    vh = _build_factor(qv, utype, r, 0)
+    s = _build_s(spec["s"], stype)
+    pobj = build_partition(part, ptype)
+    single = utype in SINGLE or stype == "f32"
+    tol = TOL32 if single else 1e-7
+    uu = np.asarray(u, dtype=complex)[:, :r]
+    vv = np.asarray(vh, dtype=complex)[:r, :]
+    ss = np.asarray(s, dtype=float)
+    want = ref_undo(n, (uu * ss) @ vv, part)
+    snaps = [_snapshot(x) for x in (u, vh, s, pobj)]
+    try:
+        back = np.asarray(_call_composition(cform, u, vh, s, pobj))
+    except Exception as ex:
+        ctx.fail(key, f"raised {type(ex).__name__}: {ex}", spec)
+        return
+    problems = []
+    if not all(_unchanged(x, sn) for x, sn in zip((u, vh, s, pobj), snaps)):
+        problems.append("schmidt_composition modified one of its arguments")
+    if back.shape != (2 ** n,):
+        problems.append(f"composition has shape {back.shape}")
+    else:
+        err = np.abs(back - want).max()
+        if err > tol:
+            problems.append(f"composition differs from (U*s)V placed on the qubits by {err:.2e}")
+    ctx.count(f"diversity:comp-alone:u={utype}")
+    ctx.count(f"diversity:comp-alone:s={stype}")
+    ctx.count(f"diversity:comp-alone:p={ptype}")
+    if problems:
+        ctx.fail(key, "; ".join(problems), spec)
+    else:
+        ctx.ok(key, nontrivial=True)
+
+
+def mk_comp(name, n, part, qu, qv, s, utype="c128", stype="f64", ptype="list", cform="pos"):
+    if ptype == "range" and _as_range(part) is None:
+        ptype = "tuple"
+    qu, qv = np.asarray(qu, dtype=complex), np.asarray(qv, dtype=complex)
+    return {"call": "diversity-comp", "family": name, "n": int(n), "partition": [int(a) for a in part],
+            "u_re": np.real(qu).tolist(), "u_im": np.imag(qu).tolist(), "v_re": np.real(qv).tolist(), "v_im": np.imag(qv).tolist(),
+            "s": [float(x) for x in s], "utype": utype, "stype": stype, "ptype": ptype, "cform": cform}
+
+
+# ---- reshape alone --------------------------------------------------------------------------
+
+MTYPES = ["asis", "nested-list", "fortran", "strided", "readonly", "copy", "tuple-of-tuples"]
+
+
+def _build_matrix(m, mtype):
+    m = np.asarray(m)
+    if mtype == "asis":
+        return m
+    if mtype == "copy":
+        return np.array(m)
+    if mtype == "nested-list":
+        return m.tolist()
+    if mtype == "tuple-of-tuples":
+        return tuple(tuple(row) for row in m.tolist())
+    if mtype == "fortran":
+        return np.asfortranarray(m)
+    if mtype == "strided":
+        big = np.full((2 * m.shape[0], 2 * m.shape[1]), 7, dtype=m.dtype)
+        big[::2, ::2] = m
+        return big[::2, ::2]
+    if mtype == "readonly":
+        a = np.array(m)
+        a.flags.writeable = False
+        return a
+    raise ValueError(mtype)
+
+
+def _call_sep(form, n, vobj, pobj):
+    from qclib.entanglement import _separation_matrix as S
+    if form == "kw":
+        return S(n_qubits=n, state_vector=vobj, partition=pobj)
+    if form == "kw-reordered":
+        return S(partition=pobj, state_vector=vobj, n_qubits=n)
+    return S(n, vobj, pobj)
+
+
+def _call_undo(form, n, mobj, pobj):
+    from qclib.entanglement import _undo_separation_matrix as U
+    if form == "kw":
+        return U(n_qubits=n, sep_matrix=mobj, partition=pobj)
+    if form == "kw-reordered":
+        return U(partition=pobj, sep_matrix=mobj, n_qubits=n)
+    return U(n, mobj, pobj)
+
+
+def reshape_form_case(ctx, spec):
+    """'Reshaping to the bipartition matrix and back is the identity' with the vector / matrix / partition in the named
+    forms; the matrix must also be the one the canonical form (complex128 array, list partition) gives."""
+    n, part = spec["n"], spec["partition"]
+    vref = np.array(spec["vector_re"]) + 1j * np.array(spec["vector_im"])
+    vtype, ptype, mtype, form = spec["vtype"], spec["ptype"], spec["mtype"], spec["form"]
+    key = f"diversity:reshape:n={n}:P={','.join(map(str, part))}:v={vtype}:p={ptype}:m={mtype}:call={form}"
+    vobj = build_state(vref, vtype)
+    vup = np.asarray(vobj, dtype=complex).reshape(-1)
+    pobj = build_partition(part, ptype)
+    snaps = [_snapshot(vobj), _snapshot(pobj)]
+    k = len(part)
+    try:
+        m = _call_sep(form, n, vobj, pobj)
+        mcanon = _call_sep("pos", n, vup, list(part))
+        mobj = _build_matrix(m, mtype)
+        msnap = _snapshot(mobj)
+        back = _call_undo(form, n, mobj, pobj)
+        # the other direction on an arbitrary integer matrix in the same form
+        mm = _build_matrix(np.arange(1, 2 ** n + 1).reshape(2 ** (n - k), 2 ** k) * 3 - 2 ** n, mtype)
+        back2 = _call_sep(form, n, _call_undo(form, n, mm, pobj), pobj)
+    except Exception as ex:
+        ctx.fail(key, f"raised {type(ex).__name__}: {ex}", spec)
+        return
+    problems = []
+    m, back, back2 = np.asarray(m), np.asarray(back), np.asarray(back2)
+    if m.shape != (2 ** (n - k), 2 ** k):
+        problems.append(f"shape {m.shape}")
+    elif not np.array_equal(m, mcanon):
+        problems.append("matrix differs from the one for the canonical form of the same input")
+    if back.shape != (2 ** n,) or not np.array_equal(back, vup):
+        problems.append("undo(sep(v)) != v")
+    if back2.shape != np.asarray(mm).shape or not np.array_equal(back2, np.asarray(mm)):
+        problems.append("sep(undo(M)) != M")
+    if not (_unchanged(vobj, snaps[0]) and _unchanged(pobj, snaps[1]) and _unchanged(mobj, msnap)):
+        problems.append("an argument was modified")
+    ctx.count(f"diversity:reshape:v={vtype}")
+    ctx.count(f"diversity:reshape:p={ptype}")
+    ctx.count(f"diversity:reshape:m={mtype}")
+    if problems:
+        ctx.fail(key, "; ".join(problems), spec)
+    else:
+        ctx.ok(key, nontrivial=0 < k < n)
+
+
+def mk_reshape(n, part, v, vtype="c128", ptype="list", mtype="asis", form="pos"):
+    if ptype == "range" and _as_range(part) is None:
+        ptype = "tuple"
+    v = np.asarray(v, dtype=complex)
+    return {"call": "diversity-reshape", "n": int(n), "partition": [int(a) for a in part], "vtype": vtype, "ptype": ptype,
+            "mtype": mtype, "form": form, "vector_re": [float(x) for x in np.real(v)], "vector_im": [float(x) for x in np.imag(v)]}
+
+
+ATYPES = ["ndarray", "list-int", "tuple-int", "f64", "readonly", "strided", "c128"]
+
+
+def tie_sep_form(ctx, n, part, ptype, atype, mtype):
+    """Index tables of the real reshape functions with the partition / index vector / index matrix in the given forms,
+    against the model run on the canonical integer partition."""
+    from qclib.entanglement import _separation_matrix, _undo_separation_matrix
+    if ptype == "range" and _as_range(part) is None:
+        ptype = "tuple"
+    pobj = build_partition(part, ptype)
+    idx = np.arange(2 ** n)
+    vobj = {"ndarray": lambda: idx, "list-int": lambda: [int(x) for x in idx], "tuple-int": lambda: tuple(int(x) for x in idx),
+            "f64": lambda: idx.astype(float), "c128": lambda: idx.astype(complex),
+            "readonly": lambda: build_state(idx, "i64-readonly"), "strided": lambda: build_state(idx, "f64-strided")}[atype]()
+    try:
+        m = np.asarray(_separation_matrix(n, vobj, pobj))
+        rows, cols = m.shape
+        undo_tab = [int(round(float(np.real(x)))) for x in m.reshape(-1)]
+        v = _undo_separation_matrix(n, _build_matrix(np.arange(2 ** n).reshape(rows, cols), mtype), pobj)
+        sep_tab = [int(x) for x in np.asarray(v)]
+        lines = ["sep " + " ".join(map(str, sep_tab)), "undo " + " ".join(map(str, undo_tab))]
+    except Exception:
+        lines = ["reject"]
+    canon = sorted(int(a) for a in part) if ptype in ("set", "frozenset") else [int(a) for a in part]
+    ctx.tie({"op": "sep", "n": n, "P": canon}, lines)
+    ctx.count(f"diversity:tie-sep:p={ptype}")
+    ctx.count(f"diversity:tie-sep:a={atype}/m={mtype}")
+
+
+def tie_rank_form(ctx, lr, s, lrtype, stype):
+    """Rank rule with the requested rank as a numpy integer and the coefficients as list / tuple / float32 / int array."""
+    from qclib.entanglement import low_rank_approximation, _effective_rank
+    sobj = _build_s(s, stype)
+    sup = [float(x) for x in np.asarray(sobj, dtype=float)]
+    lobj = build_rank(lr, lrtype)
+    eff = int(_effective_rank(sobj))
+    try:
+        rr, uu, sv, vv = low_rank_approximation(lobj, np.zeros((1, len(sup))), np.zeros((len(sup), 1)), sobj)
+        line = f"rank {int(rr)}"
+        if len(sv) != min(int(rr), len(sup)):
+            line += f" (returned {len(sv)} coefficients)"
+    except ValueError:
+        line = "reject"
+    ctx.tie({"op": "ranks", "lr": int(lr), "s": sup}, [f"eff {eff}", line])
+    ctx.count(f"diversity:tie-rank:lr={lrtype}/s={stype}")
+
+
+# ---- generators -----------------------------------------------------------------------------
+
+def _phase(rng):
+    return complex(np.exp(1j * rng.uniform(0.3, 2 * math.pi - 0.3)))
+
+
+def _exact_repeated(n, part, m, rng, phases=False):
+    """m exactly equal Schmidt coefficients: c * sum_j |row_j>|col_j> with distinct rows and columns (a partial permutation
+    matrix times c, optional unit phases): the coefficients are the same float m times."""
+    k = len(part)
+    rows, cols = 2 ** (n - k), 2 ** k
+    rr = rng.permutation(rows)[:m]
+    cc = rng.permutation(cols)[:m]
+    mat = np.zeros((rows, cols), dtype=complex)
+    c = 1 / math.sqrt(m)
+    for j in range(m):
+        mat[rr[j], cc[j]] = c * ([1, -1, 1j, -1j][int(rng.integers(4))] if phases else 1)
+    return ref_undo(n, mat, sorted(part))
+
+
+def _light_tail_amplitudes(rng, n, where):
+    """One or two amplitudes O(1), the others 3e-6 .. 1e-3 (random phases), head at the start / at the end / mixed."""
+    d = 2 ** n
+    v = 10.0 ** (-rng.uniform(3.0, 5.5, size=d)) * np.exp(1j * rng.uniform(0, 2 * math.pi, size=d))
+    heads = {"first": [0], "last": [d - 1], "first-two": [0, 1], "mixed": [int(rng.integers(1, d - 1)), d - 1]}[where]
+    for h in heads:
+        v[h] = _phase(rng)
+    return v / np.linalg.norm(v)
+
+
+def _partitions_by_size(ctx, n):
+    """Partitions of sizes 1, n//2, n-1 (and the complement of the middle one), one of them non-ascending."""
+    if n == 2:
+        return [[0], [1]]
+    out = []
+    for k in sorted({1, n // 2, n - 1}):
+        if not 0 < k < n:
+            continue
+        p = sorted(ctx.rng.sample(range(n), k))
+        out.append(p)
+        if k >= 2:
+            sh = list(p)
+            while sh == sorted(sh):
+                ctx.rng.shuffle(sh)
+            out.append(sh)
+        if k == n // 2:
+            comp = [a for a in range(n) if a not in p]
+            if comp and comp != p:
+                out.append(comp[::-1])            # the complement, descending (lowrank.py hands over reg_a = partition[::-1])
+    return out
+
+
+def div_types(ctx):
+    """Family 1: element / container types of the state and of the partition, through the full round trip."""
+    rng = ctx.nprng()
+    cyc = itertools.cycle(PTYPES)
+    for n, parts in ((2, [[0], [1]]), (3, [[1], [2, 0], [0, 1]]), (4, [[3, 1], [1, 3, 0], [2]])):
+        d = 2 ** n
+        states = []
+        for i, sign in ((0, 1), (d - 1, -1), (int(rng.integers(1, d - 1)), -1)):
+            e = np.zeros(d)
+            e[i] = sign
+            states.append((f"basis-int{'+' if sign > 0 else '-'}", e, True))
+        states.append(("real-signed", rand_unit(rng, d, real=True), False))
+        states.append(("complex", rand_unit(rng, d), False))
+        half = np.array([(-1) ** bin(i & (i >> 1)).count("1") for i in range(d)]) / math.sqrt(d)   # exact for n = 2, 4
+        states.append(("exact-half-signs", half, False))
+        if n >= 3:
+            sp = np.zeros(d, dtype=complex)
+            sp[[1, d - 2]] = [0.6, -0.8j]
+            states.append(("sparse-zeros", sp, False))
+        for name, v, exact in states:
+            for vtype in vtypes_for(v):
+                for part in parts:
+                    for r in (0, 1) if vtype not in ("i64", "list-int", "f32", "c64", "c128") else (0, 1, 2, 3):
+                        form_case(ctx, mkspec(name, n, part, v, r, vtype=vtype, ptype=next(cyc), exact32=exact))
+            ctx.count("diversity:types")
+
+
+def div_scale(ctx):
+    """Family 2: scale structure of the Schmidt coefficients and of the amplitudes."""
+    rng = ctx.nprng()
+    pc = itertools.cycle(PTYPES)
+    vc = itertools.cycle(["c128", "list", "readonly", "c64", "tuple", "strided"])
+    fc = itertools.cycle(DFORMS)
+    for n in (2, 3, 4, 5, 6):
+        for part in _partitions_by_size(ctx, n):
+            k = len(part)
+            mind = min(2 ** k, 2 ** (n - k))
+            sp = sorted(part)
+            fams = []
+            if mind >= 2:
+                fams.append(("tail-1e-3", with_spectrum(rng, n, sp, [1.0, 1e-3]), BAND))
+                fams.append(("tail-3e-5", with_spectrum(rng, n, sp, [1.0, 3e-5] if mind < 4 else [0.9, 0.4, 3e-5]), BAND))
+                fams.append(("tail-1e-6", with_spectrum(rng, n, sp, [1.0, 1e-6] if mind < 4 else [0.9, 0.4, 1e-6]), NARROW_BAND))
+                fams.append(("all-equal", with_spectrum(rng, n, sp, [1.0] * mind), BAND))
+                fams.append(("exact-repeated-max", _exact_repeated(n, part, mind, rng, phases=True), BAND))
+                fams.append(("exact-repeated2", _exact_repeated(n, part, 2, rng), BAND))
+            if mind >= 4:
+                fams.append(("tail-ladder", with_spectrum(rng, n, sp, [0.9, 1e-3, 1e-4, 1e-6]), NARROW_BAND))
+                fams.append(("exact-repeated3", _exact_repeated(n, part, 3, rng, phases=True), BAND))
+                fams.append(("head2-tail", with_spectrum(rng, n, sp, [0.7, 0.7, 3e-5, 3e-5], real=True), BAND))
+            d = 2 ** n
+            for where in ("first", "last", "first-two", "mixed"):
+                if where == "mixed" and d < 4:
+                    continue
+                for _ in range(4):
+                    v = _light_tail_amplitudes(rng, n, where)
+                    sref = np.linalg.svd(ref_sep(n, v, part), compute_uv=False)
+                    if not any(NARROW_BAND[0] <= x <= NARROW_BAND[1] for x in sref):
+                        fams.append((f"amp-tail-{where}", v, NARROW_BAND))
+                        break
+                else:
+                    ctx.count("diversity:skipped:amp-tail-near-cut")
+            for pos, tag in ((0, "first"), (d - 1, "last")):
+                e = np.zeros(d, dtype=complex)
+                e[pos] = [1, -1, 1j, -1j, _phase(rng)][int(rng.integers(5))]
+                fams.append((f"single-{tag}", e, BAND))
+            hv = np.zeros(d, dtype=complex)
+            hv[: d // 2] = rand_unit(rng, d // 2)
+            fams.append(("half-low", hv, BAND))
+            hv = np.zeros(d, dtype=complex)
+            hv[d // 2:] = rand_unit(rng, d // 2)
+            fams.append(("half-high", hv, BAND))
+            if d >= 8:
+                st = np.zeros(d, dtype=complex)
+                st[d // 4: d // 2] = rand_unit(rng, d // 4)
+                fams.append(("sub-tree", st, BAND))
+                sv = np.zeros(d, dtype=complex)
+                nz = rng.permutation(d)[: 2 + int(rng.integers(2))]
+                sv[nz] = rand_unit(rng, len(nz))
+                fams.append(("sparse", sv, BAND))
+            pr = np.array([1.0 + 0j])
+            for _ in range(n):
+                pr = np.kron(pr, rand_unit(rng, 2))
+            fams.append(("product", pr, BAND))
+            for name, v, band in fams:
+                rs = [0, 1] + ([int(ctx.rng.choice([2, 3, mind, mind + 1]))] if mind >= 2 else [])
+                for r in rs:
+                    vt = next(vc)
+                    if vt == "c64" and band is not BAND:
+                        vt = "c128"
+                    form_case(ctx, mkspec(name, n, part, v, r, vtype=vt, ptype=next(pc), form=next(fc), band=band))
+        ctx.count("diversity:scale")
+
+
+def div_phase(ctx):
+    """Family 3: sign / phase structure (the round trip is exact including the phase)."""
+    rng = ctx.nprng()
+    pc = itertools.cycle(PTYPES)
+    fc = itertools.cycle(DFORMS)
+    for n in (2, 3, 4, 5):
+        d = 2 ** n
+        base = rand_unit(rng, d)
+        rbase = np.abs(rand_unit(rng, d, real=True))
+        fams = [("all-negative", -rbase, ["f64", "list-float", "c128-zero-imag", "f32"]),
+                ("imaginary", 1j * rbase, ["c128", "list", "c64"]),
+                ("imaginary-negative", -1j * rbase, ["c128", "tuple"]),
+                ("real-mixed-signs", rbase * rng.choice([-1.0, 1.0], size=d), ["f64", "f64-readonly", "c128-zero-imag"])]
+        for ph, tag in ((-1, "-1"), (1j, "i"), (-1j, "-i"), (_phase(rng), "eit")):
+            fams.append((f"global-phase{tag}", ph * base, ["c128", "list-npscalar"]))
+        uni = np.ones(d) / math.sqrt(d)
+        fams.append(("uniform-signs", uni * rng.choice([-1.0, 1.0], size=d), ["f64", "c128-zero-imag", "list-float"]))
+        fams.append(("uniform-pm1-pmi", uni * rng.choice(np.array([1, -1, 1j, -1j]), size=d), ["c128", "list", "negzero"]))
+        fams.append(("all-equal-negative", -uni, ["f64", "f32", "tuple-float"]))
+        for part in _partitions_by_size(ctx, n):
+            mind = min(2 ** len(part), 2 ** (n - len(part)))
+            for name, v, vts in fams:
+                for vt in vts:
+                    for r in (0, int(ctx.rng.choice([1, 2, 3]))):
+                        form_case(ctx, mkspec(name, n, part, v, r, vtype=vt, ptype=next(pc), form=next(fc)))
+        ctx.count("diversity:phase")
+
+
+def div_calls(ctx):
+    """Family 4: call forms.  Every decomposition form x partition form, every composition form x factor form x
+    composition-partition form, rank types, svd named / positional, the same object decomposed for two partitions."""
+    rng = ctx.nprng()
+    _seed_rsvd(ctx)
+    cases = [(3, [2, 0], [1]), (3, [1], [0, 2]), (4, [3, 1], [0, 2]), (4, [1, 3, 0], [2]), (4, [0, 1, 2], [3, 0]), (5, [4, 2], [3, 1, 0])]
+    for n, part, part2 in cases:
+        k = len(part)
+        mind = min(2 ** k, 2 ** (n - k))
+        v = rand_unit(rng, 2 ** n)
+        vdef = with_spectrum(rng, n, sorted(part), [0.8, 0.6]) if mind >= 2 else v
+        # decomposition form x partition form (+ rank type, svd value cycled)
+        tc = itertools.cycle(["tuple", "list", "ndarray"])
+        pick = ctx.rng.choice                      # inner forms drawn independently (cycles would lock step with r)
+        for form in DFORMS:
+            for ptype in PTYPES:
+                for r in (0, 1, 3):
+                    form_case(ctx, mkspec("calls", n, part, v, r, ptype=ptype, rtype=pick(RTYPES), form=form,
+                                          svd=pick(["auto", "regular"]), cform=pick(CFORMS), ctype=pick(CTYPES),
+                                          pcomp=pick(PCOMPS)))
+        # every rank type x every way the rank is passed, requested rank below the Schmidt rank
+        for form in ("pos3", "pos4", "kw-rank", "kw-rank-svd", "kw-all", "kw-all-reordered", "mixed"):
+            for rt in RTYPES:
+                for r in (1, 2, 3):
+                    form_case(ctx, mkspec("rank-types", n, part, v, r, ptype=next(tc), rtype=rt, form=form))
+        # composition form x factor form x composition partition form
+        for cf in CFORMS:
+            for ct in CTYPES:
+                for pq in PCOMPS:
+                    form_case(ctx, mkspec("comp-forms", n, part, vdef, int(ctx.rng.choice([0, 1, 2, 3])), ptype="list",
+                                          form="kw-rank", cform=cf, ctype=ct, pcomp=pq))
+        # the SAME input object decomposed for two different partitions (int / real / complex, read-only, strided, column views)
+        e = np.zeros(2 ** n)
+        e[int(rng.integers(2 ** n))] = -1
+        for name, vec, vts in (("twice-int", e, ["i64", "list-int", "i64-readonly", "tuple-int"]),
+                               ("twice-real", rand_unit(rng, 2 ** n, real=True), ["f64", "f64-readonly", "f64-strided", "list-float"]),
+                               ("twice-complex", v, ["c128", "readonly", "strided", "column-C", "column-F", "list", "tuple"])):
+            for vt in vts:
+                for r in (0, 2):
+                    form_case(ctx, mkspec(name, n, part, vec, r, vtype=vt, ptype=next(tc), form="kw-rank-svd", svd="auto",
+                                          partition2=part2))
+        # svd='randomized' positionally / by keyword with rank = least power of two >= Schmidt rank (exact there)
+        for spec, rr in (([1.0], 1), ([0.8, 0.6], 2)):
+            if len(spec) <= mind:
+                vs = with_spectrum(rng, n, sorted(part), spec)
+                for form in ("pos4", "kw-rank-svd", "kw-all-reordered"):
+                    form_case(ctx, mkspec("randomized-forms", n, part, vs, rr, ptype="tuple", rtype="np.int64", form=form,
+                                          svd="randomized"))
+    # forms the library does not claim to support: rank=None, factors as nested lists
+    from qclib.entanglement import schmidt_decomposition, schmidt_composition
+    v = rand_unit(rng, 8)
+    for name, fn in (("rank-None", lambda: schmidt_decomposition(v, [0], None)),
+                     ("composition-factors-as-lists",
+                      lambda: schmidt_composition(*[x.tolist() for x in schmidt_decomposition(v, [0])[1::2]], [1.0, 0.0], [0]))):
+        try:
+            fn()
+            ctx.count(f"diversity:{name}:accepted")
+        except Exception as ex:
+            ctx.count(f"diversity:{name}:unsupported-form-raises-{type(ex).__name__}")
+    ctx.count("diversity:calls")
+
+
+def div_sizes(ctx):
+    """Family 5: n = 2 with every form, partition sizes 1 / n//2 / n-1 at n = 3..6, requested ranks 1..5 (and > Schmidt rank,
+    numpy integers) at n = 4..6, cheap forms on the n = 14 'auto' -> randomized branch."""
+    rng = ctx.nprng()
+    _seed_rsvd(ctx)
+    # n = 2: the smallest size with a proper non-empty subset, every state form x partition form x call form
+    for name, v in (("bell-int-like", np.array([1, 0, 0, 1]) / math.sqrt(2)), ("basis", np.array([0, 0, 1, 0.0])),
+                    ("complex", rand_unit(rng, 4)), ("product", np.kron(rand_unit(rng, 2), rand_unit(rng, 2)))):
+        fc = itertools.cycle(DFORMS)
+        for part in ([0], [1]):
+            for vt in vtypes_for(v):
+                for pt in PTYPES:
+                    for r in (0, 1, 2, 3):
+                        form_case(ctx, mkspec("n2-" + name, 2, part, v, r, vtype=vt, ptype=pt, form=next(fc),
+                                              exact32=name == "basis"))
+    # ranks 1..5, mind + 1 as python / numpy integers at n = 4, 5, 6
+    pc = itertools.cycle(PTYPES)
+    for n in (4, 5, 6):
+        for part in _partitions_by_size(ctx, n):
+            mind = min(2 ** len(part), 2 ** (n - len(part)))
+            specs = [("generic", rand_unit(rng, 2 ** n)), ("product", with_spectrum(rng, n, sorted(part), [1.0]))]
+            if mind >= 4:
+                specs.append(("deficient3", with_spectrum(rng, n, sorted(part), [0.8, 0.5, 0.33])))
+            if mind >= 8:
+                specs.append(("deficient5", with_spectrum(rng, n, sorted(part), [0.7, 0.5, 0.4, 0.3, 0.2])))
+            for name, v in specs:
+                for r in (1, 2, 3, 4, 5, mind + 1):
+                    form_case(ctx, mkspec(name, n, part, v, r, ptype=next(pc), rtype=ctx.rng.choice(RTYPES), form="kw-rank"))
+    # n = 14: partition / rank / call forms on the size-dependent SVD switch (product and 3-coefficient states)
+    n = 14
+    # (partitions of 8, 11, 10, 12 qubits: all above the bound round(14/2.5) = 6; the lopsided ones keep the reference SVD cheap)
+    for part, ptype, rtype, form, spec in (([13, 1, 2, 3, 5, 8, 9, 11], "tuple", "np.int64", "pos3", [1.0]),
+                                           (list(range(13, 2, -1)), "range", "int", "kw-rank", [0.9, 0.4, 0.15]),
+                                           ([0, 3, 5, 6, 9, 11, 13, 1, 2, 8], "ndarray", "np.int32", "kw-rank-svd", [1.0]),
+                                           ([0, 1, 2, 3, 4, 5, 7, 9, 10, 11, 12, 13], "frozenset", "int", "mixed", [0.9, 0.4, 0.15])):
+        v = with_spectrum(rng, n, sorted(part), spec)
+        for r in (1,) if len(spec) == 1 else (1, 3):
+            form_case(ctx, mkspec(f"n14-spectrum{len(spec)}", n, part, v, r, ptype=ptype, rtype=rtype, form=form,
+                                  vtype="readonly" if len(spec) == 1 else "c128"))
+        ctx.count("diversity:n=14:auto->randomized")
+    ctx.count("diversity:sizes")
+
+
+def div_comp(ctx):
+    """schmidt_composition alone: factor / coefficient / partition / call forms."""
+    rng = ctx.nprng()
+    pc = itertools.cycle(PTYPES)
+    cc = itertools.cycle(CFORMS)
+    for n, part in ((2, [0]), (2, [1]), (3, [2, 0]), (3, [1]), (4, [3, 1]), (4, [1, 3, 0]), (4, [2])):
+        k = len(part)
+        rows, cols = 2 ** (n - k), 2 ** k
+        mind = min(rows, cols)
+        for real in (False, True):
+            qu = orthonormal(rng, rows, rows, real)
+            qv = orthonormal(rng, cols, cols, real).T
+            specs = [("product", [1.0])]
+            if mind >= 2:
+                specs += [("two", [0.8, 0.6]), ("light-tail", [1.0, 1e-3]), ("equal", [math.sqrt(0.5)] * 2)]
+            if mind >= 4:
+                specs += [("four-tail", [0.9, 0.4, 1e-3, 1e-6]), ("three", [0.8, 0.5, 0.33])]
+            for name, s in specs:
+                s = [float(x) for x in np.array(s) / np.linalg.norm(s)]
+                for ut in UTYPES:
+                    if ut in ("f64", "f32", "f32-fortran") and not real:
+                        continue
+                    if ut == "i64":
+                        continue
+                    sts = ["f64", "list", "tuple", "list-npfloat", "f32"] + (["i64", "list-int", "tuple-int"] if len(s) == 1 else [])
+                    for st in sts:
+                        comp_case(ctx, mk_comp(("real-" if real else "") + name, n, part, qu, qv, s, utype=ut, stype=st,
+                                               ptype=next(pc), cform=next(cc)))
+        # all-integer factors of a basis (product) state: u, v int64, s = [1] as int array / int list
+        i, j = int(rng.integers(rows)), int(rng.integers(cols))
+        pu = np.roll(np.eye(rows), i, axis=0) * -1
+        pv = np.roll(np.eye(cols), j, axis=1)
+        for st in ("i64", "list-int", "tuple-int", "f64"):
+            for pt in PTYPES:
+                comp_case(ctx, mk_comp("basis-int", n, part, pu, pv, [1.0], utype="i64", stype=st, ptype=pt, cform=next(cc)))
+        # phases on the factors
+        qu = orthonormal(rng, rows, rows) * np.array([1, -1, 1j, -1j])[rng.integers(4, size=rows)]
+        qv = (orthonormal(rng, cols, cols) * _phase(rng)).T
+        for ut in ("c128", "sliced-view", "full-unsliced", "fortran"):
+            comp_case(ctx, mk_comp("phased", n, part, qu, qv, [0.8, 0.6] if mind >= 2 else [1.0], utype=ut, ptype=next(pc),
+                                   cform=next(cc)))
+    ctx.count("diversity:composition-alone")
+
+
+def div_reshape(ctx):
+    """_separation_matrix / _undo_separation_matrix: vector, matrix, partition and call forms (oracle), and the index tables
+    with the partition / index array in each form (tie)."""
+    rng = ctx.nprng()
+    mc = itertools.cycle(MTYPES)
+    fc = itertools.cycle(["pos", "kw", "kw-reordered"])
+    for n in (2, 3, 4, 5, 6):
+        d = 2 ** n
+        parts = _partitions_by_size(ctx, n) + ([[2, 0], [1, 3, 0]] if n == 4 else [])
+        e = np.zeros(d)
+        e[int(rng.integers(d))] = -1
+        states = [("complex", rand_unit(rng, d)), ("real", rand_unit(rng, d, real=True)), ("int", e)]
+        for part in parts:
+            for name, v in states:
+                vts = {"complex": VTYPES_COMPLEX, "real": VTYPES_REAL, "int": VTYPES_INT + ["list-mixed", "negzero"]}[name]
+                if n > 4:
+                    vts = vts[:: 2]
+                for vt in vts:
+                    for pt in (PTYPES if n <= 3 else [PTYPES[(len(vt) + n) % len(PTYPES)], "list"]):
+                        reshape_form_case(ctx, mk_reshape(n, part, v, vtype=vt, ptype=pt, mtype=next(mc), form=next(fc)))
+            ac = itertools.cycle(ATYPES)
+            for pt in PTYPES:
+                tie_sep_form(ctx, n, part, pt, next(ac), next(mc))
+        ctx.count("diversity:reshape")
+    # rank rule: numpy-integer request, coefficient containers
+    for s in ([1.0, 0.5, 1e-3, 1e-6], [0.7, 0.7, 3e-5, 0.0], [1.0, 0.0], [1.0], [0.5] * 4, [0.9, 0.4, 0.1, 0.05, 1e-3, 0.0, 0.0, 0.0],
+              [1.0, 1.0, 1.0, 0.0]):
+        for lr in (0, 1, 2, 3, 4, 5, 9):
+            for lt in RTYPES:
+                for st in ("f64", "list", "tuple", "list-npfloat", "f32") + (("i64", "list-int") if s == [1.0, 1.0, 1.0, 0.0] else ()):
+                    tie_rank_form(ctx, lr, s, lt, st)
+
+
+def run_diversity(ctx):
+    div_types(ctx)
+    div_scale(ctx)
+    div_phase(ctx)
+    div_calls(ctx)
+    div_sizes(ctx)
+    div_comp(ctx)
+    div_reshape(ctx)
+    ctx.notes.append("diversity cases: element/container types of state, partition, rank and of the composition's factors; light-tail "
+                     "spectra 1e-3 / 3e-5 (band [1e-9, 1e-5]) and 1e-6 (band (5e-8, 2e-7)); single precision compared with the up-cast "
+                     f"input to {TOL32} and only on states with all coefficients >= 3e-4 or exact basis states; rank=None and factors "
+                     "passed as nested lists are not claimed by the library (counted, not judged)")
+
+
 def compare(op, impl, model):
     """All dumped lines are integers / fixed tokens: exact comparison."""
     a = [" ".join(l.split()) for l in impl]
@@ -551,6 +1578,7 @@ def run(ctx):
     run_oracle(ctx)
     run_oracle_branches(ctx)
     run_oracle_boundaries(ctx)
+    run_diversity(ctx)
 
 
 def search(ctx, hints):
@@ -575,13 +1603,21 @@ def search(ctx, hints):
                 part = list(range(n // 2))
                 v = with_spectrum(rng, n, part, [1.0] * min(eff, 2 ** (n // 2)))
                 oracle_case(ctx, "hint", n, part, v, max(0, op.get("lr", 0)))
+    run_diversity(ctx)
     run_oracle(ctx, nmax=7, nfull=6)
 
 
 def replay(ctx, payload):
     r = payload["replay"]
     rng = ctx.nprng()
-    if r.get("call", "").startswith("_separation"):
+    if r.get("call") == "diversity":
+        _seed_rsvd(ctx)
+        form_case(ctx, r)
+    elif r.get("call") == "diversity-comp":
+        comp_case(ctx, r)
+    elif r.get("call") == "diversity-reshape":
+        reshape_form_case(ctx, r)
+    elif r.get("call", "").startswith("_separation"):
         reshape_case(ctx, r["n"], r["partition"], rng)
     else:
         v = np.array(r["vector_re"]) + 1j * np.array(r["vector_im"])
